@@ -11,6 +11,7 @@ MC_MODELS = {
     "MC_FragReal": {"tla": "MC_Frag.tla", "cfg": "MC_Frag_real_quick.cfg", "thorough_cfg": "MC_Frag_real.cfg", "workers": 8, "timeout": 900},
     "MC_FragLive": {"tla": "MC_Frag.tla", "cfg": "MC_Frag_live.cfg", "workers": 8, "timeout": 900, "thorough_only": True},
     "MC_Rx": {"tla": "MC_Rx.tla", "cfg": "MC_Rx.cfg", "thorough_cfg": "MC_Rx_thorough.cfg", "workers": 8, "timeout": 2400},
+    "MC_RxFaults": {"tla": "MC_Rx.tla", "cfg": "MC_RxFaults.cfg", "thorough_cfg": "MC_RxFaults_thorough.cfg", "workers": 8, "timeout": 2400},
     "MC_Wire": {"tla": "MC_Wire.tla", "cfg": "MC_Wire.cfg", "workers": 6, "timeout": 600},
     "MC_Crc": {"tla": "MC_Crc.tla", "cfg": "MC_Crc.cfg", "thorough_cfg": "MC_Crc_thorough.cfg", "workers": 6, "timeout": 1200},
 }
@@ -19,6 +20,7 @@ MC_MODELS = {
 GENERATORS = {
     "Gen_Memory": {"tla": "MC_Memory.tla", "cfg": "Gen_Memory.cfg", "thorough_cfg": "Gen_Memory_thorough.cfg", "timeout": 600},
     "Gen_Rx": {"tla": "MC_Rx.tla", "cfg": "Gen_Rx.cfg", "timeout": 600, "quick_simulate": [600, 10], "thorough_simulate": [6000, 10]},
+    "Gen_RxFaults": {"tla": "MC_Rx.tla", "cfg": "Gen_RxFaults.cfg", "timeout": 600, "quick_simulate": [400, 10], "thorough_simulate": [4000, 10]},
     "Gen_Labels": {"tla": "MC_Labels.tla", "cfg": "Gen_Labels.cfg", "timeout": 900, "quick_sample": 1500},
 }
 
@@ -30,7 +32,9 @@ PLAN = {
     "C05": {"mc": ["MC_Wire", "MC_Rx"], "drivers": [D("fuzzrx"), D("faults"), D("ext")]},
     "C06": {"mc": ["MC_Frag", "MC_FragReal", "MC_Wire"], "drivers": [D("lattice"), D("chains"), D("ext")]},
     "C07": {"mc": ["MC_Rx"], "drivers": [D("rxscn", "--scn", "@gen:Gen_Rx"), D("interleave"), D("frames")]},
-    "C08": {"mc": ["MC_Rx", "MC_Memory"], "drivers": [D("rxscn", "--scn", "@gen:Gen_Rx"), D("fuzzrx"), D("faults"), D("interleave"), D("labels")]},
+    "C08": {"mc": ["MC_Rx", "MC_RxFaults", "MC_Memory"],
+            "drivers": [D("rxscn", "--scn", "@gen:Gen_Rx"), D("rxscn", "--scn", "@gen:Gen_RxFaults"), D("memfaults"), D("fuzzrx"), D("faults"),
+                        D("interleave"), D("labels")]},
     "C09": {"mc": ["MC_Labels", "MC_Frag"], "drivers": [D("lattice"), D("labels"), D("ext")]},
     "C10": {"mc": ["MC_Wire", "MC_Rx"], "drivers": [D("frames"), D("chains"), D("ext")]},
     "C11": {"mc": ["MC_Frag", "MC_FragReal", "MC_FragLive"], "drivers": [D("lattice"), D("chains")]},
@@ -38,7 +42,7 @@ PLAN = {
     "C13": {"mc": ["MC_Wire", "MC_Frag"], "drivers": [D("extnew"), D("ext")]},
     "C14": {"mc": ["MC_Header"], "drivers": [D("hdr")], "exhaustive": True},
     "C15": {"apalache": ["ApaLabels"], "mc": ["MC_Labels"], "drivers": [D("labels"), D("labels", "--scn", "@gen:Gen_Labels"), D("lattice")]},
-    "C16": {"mc": ["MC_Rx"], "drivers": [D("rxscn", "--scn", "@gen:Gen_Rx"), D("fuzzrx"), D("faults")]},
+    "C16": {"mc": ["MC_Rx"], "drivers": [D("rxscn", "--scn", "@gen:Gen_Rx"), D("fuzzrx"), D("faults"), D("memfaults")]},
     "C17": {"mc": ["MC_Memory"], "drivers": [D("memops"), D("memops", "--scn", "@gen:Gen_Memory")]},
     "C18": {"mc": ["MC_Frag"], "drivers": [D("lattice")]},
     "C19": {"mc": ["MC_Wire"], "drivers": [D("chains"), D("frames"), D("ext")]},
